@@ -186,3 +186,14 @@ package bchutil
 //@ func bchutil.(Amount).ToBCH
 //@   ensures result == fp_of(a) / math.pow10(8)
 //@   modifies nothing
+
+// ---- hashing helpers
+
+//@ func bchutil.calcHash
+//@   requires hasher != nil
+//@   ensures fresh(result) && unique(result) && len(result) == hash.size(hasher.tag, hasher.ref)
+//@   modifies nothing
+
+//@ func bchutil.Hash160
+//@   ensures fresh(result) && unique(result) && len(result) == 20
+//@   modifies nothing
